@@ -19,6 +19,8 @@ func init() {
 			"at run time (packages resolve and execution/engine) no field of a cached plan node is assigned outside constructors (frozen: the tracing field); the plan cache stores a plan only after planning reported no error and after post-processing, under a key that is the hash of the printed operation; a planner is created per cache miss and pooled planning kits are reset before they return to the pool; " +
 			"per-request outputs of normalization (the variables remap) are never backed by pooled, reused storage. It does not decide option transparency (value level).",
 		Mutants: []Mutant{
+			{Name: "forwarded extensions printed while ranging over the map (reverts the F46 fix)", File: "v2/pkg/engine/resolve/resolvable.go", Rule: "C09-R8", Key: "Resolvable.printExtensions/map-range-does-not-print",
+				Old: "\t\tfor counter, key := range keys {\n\t\t\tvalue := r.allowedExtensions[key]\n", New: "\t\t_ = keys\n\t\tcounter := -1\n\t\tfor key, value := range r.allowedExtensions {\n\t\t\tcounter++\n"},
 			{Name: "subscription filter reads the raw variables under the canonical name (reverts the F31 fix)", File: "v2/pkg/engine/resolve/subscription_filter.go", Rule: "C09-R7", Key: "SkipEvent/direct-lookup-in-Context.Variables",
 				Old: "value := ctx.VariablesView().Get(f.Values[i].Segments[0].VariableSourcePath...)", New: "value := ctx.Variables.Get(f.Values[i].Segments[0].VariableSourcePath...)"},
 			{Name: "variables view tries the canonical name first (seeded change C09-21)", File: "v2/pkg/engine/resolve/variables_view.go", Rule: "C09-R7", Key: "VariablesView.Get/remap-consulted-before-lookup",
@@ -100,6 +102,7 @@ func runC09(r *fw.Run) {
 	c09PlanCache(r)
 	c09Pools(r)
 	variablesByNameOnlyThroughView(r, "C09-R7")
+	c09ResponseBytesIndependentOfMapOrder(r)
 	mergedDependencies(r, "C09-R6") // multi-fetch merging is transparent only if the merged fetch waits for every member's prerequisites
 	if os.Getenv("VERIF_DEBUG_PLANWRITES") != "" {
 		for _, pkg := range []string{"resolve", "engine"} {
@@ -951,4 +954,58 @@ func variablesByNameOnlyThroughView(r *fw.Run, rule string) {
 		in.Run(nil)
 	}
 	r.Expect(rule, "keyed lookups in the raw variables inside VariablesView.Get", nView, 1)
+}
+
+// c09ResponseBytesIndependentOfMapOrder (R8): "the same … always yields the same …" ends at the bytes the client
+// receives. The renderer (methods of resolve.Resolvable) writes the response through printBytes / printNode; a range over a
+// Go map whose body prints makes the order of the printed members differ from run to run for identical subgraph answers
+// (different bytes for caches, ETags, snapshot comparisons and the single-flight followers that share them). No range over
+// a map in a Resolvable method calls a print primitive in its body; collecting the keys, sorting them and ranging over
+// the sorted slice is the accepted idiom.
+func c09ResponseBytesIndependentOfMapOrder(r *fw.Run) {
+	p := r.Prog
+	r.Rule("C09-R8", "no range over a map in a method of resolve.Resolvable prints in its body (printBytes / printNode / a print* method): the response bytes never depend on map iteration order")
+	nRanges, ord := 0, 0
+	for _, fi := range p.Funcs("resolve") {
+		if fw.RecvName(recvTypeOrNil(fi.Obj)) != "Resolvable" {
+			continue
+		}
+		info := fi.Info()
+		inFunc := 0
+		fw.WalkAll(fi.Decl.Body, func(nd ast.Node) bool {
+			rs, ok := nd.(*ast.RangeStmt)
+			if !ok {
+				return true
+			}
+			tv, okT := info.Types[rs.X]
+			if !okT {
+				return true
+			}
+			if _, isMap := tv.Type.Underlying().(*types.Map); !isMap {
+				return true
+			}
+			nRanges++
+			inFunc++
+			var prints ast.Node
+			fw.WalkAll(rs.Body, func(m ast.Node) bool {
+				if c, isCall := m.(*ast.CallExpr); isCall && prints == nil {
+					if fn := fw.Callee(info, c); fn != nil && fw.RecvName(recvTypeOrNil(fn)) == "Resolvable" && strings.HasPrefix(fn.Name(), "print") {
+						prints = c
+					}
+				}
+				return true
+			})
+			if prints != nil {
+				ord++
+			}
+			pos := rs.Pos()
+			if prints != nil {
+				pos = prints.Pos()
+			}
+			r.Check(prints == nil, "C09-R8", fi.Name()+"/map-range-does-not-print#"+itoa(inFunc), p.Pos(pos), "the range over a map in "+fi.Name()+" does not print",
+				"response members are written in map iteration order: identical subgraph answers render to different bytes from run to run (e.g. the forwarded subgraph extensions)")
+			return true
+		})
+	}
+	r.Pass("C09-R8", "map-ranges-of-the-renderer-scanned", "-", itoa(nRanges)+" ranges over maps in Resolvable methods examined", nRanges > 0)
 }
